@@ -477,6 +477,7 @@ class C08(runner.Check):
     theorems = ('TM.C08_queue_order', 'TM.C08_queue_serial', 'TM.C08_model_queue', 'TM.C08_fail_clears_own_queue',
                 'TM.C08_cancel_targets', 'TM.C08_cancelled_behaviour', 'TM.C08_state_not_overwritten',
                 'TM.C08_cancelled_returns_false', 'TM.C08_cleanup', 'TM.C08_registered_state',
+                'TM.ScopeCell.C08_scope_reset_at_quiescence', 'TM.ScopeCell.C08_scope_save_restore_counterexample',
                 'TM.C08_cancelled_returns_false_counterexample', 'TM.C08_cancel_takes_effect_partial',
                 'TM.C08_sibling_end_isolated', 'TM.C08_fail_touches_own_event_only')
     manifest = dict(
